@@ -86,11 +86,11 @@ Proof. exact literal_reading_refuted. Qed.
 Print Assumptions C04_compat_inputs_refuted.
 
 (* If c successfully extends base b, every value of the extended spec is accepted by b and b is
-   compatible with it.  Proved for a child without frozen / Enum / Union / Dict-schema parts and a
-   base without Union / Dict schema ([good], [base_ok]): Bool/Int/Float/Str/Object/Any/Dict() and
+   compatible with it.  Proved for a child without frozen / Union / Dict-schema parts and a base
+   without Union / Dict schema ([good], [base_ok]): Bool/Int/Float/Str/Enum/Object/Any/Dict() and
    List/Tuple (all four fixed/variable cases, incl. sizes that meet) over them, any ranges, sizes,
-   noneable flags, defaults and nesting.  Missing: frozen and Enum children, Dict schemas
-   (schema-level shared-field corollary), Union. *)
+   Enum candidates, noneable flags, defaults and nesting.  Missing: frozen children, Dict schemas
+   (see the shared-field corollary below), Union. *)
 Theorem C04_extend_narrows_partial : forall q c b c',
   no_quirks q -> good c -> base_ok b -> wf b ->
   extend q c b = Ok c' ->
@@ -124,8 +124,8 @@ Theorem C04_schema_extend_shared_fields_partial : forall q bfs fs fs',
 Proof. exact schema_extend_shared_fields. Qed.
 Print Assumptions C04_schema_extend_shared_fields_partial.
 
-(* The hypothesis [wf] of the theorems above is decidable; the harness evaluates [wfb], [keys_ok]
-   and [sizes_ok] (model run) on every spec the constructors build and on every spec an extension
+(* The hypothesis [wf] of the theorems above is decidable; the harness evaluates [wfb], [keys_ok],
+   [sizes_ok] and [enums_ok] (model run) on every spec the constructors build and on every spec an extension
    returns, so the theorems apply to the states the library actually produces. *)
 Theorem C04_wf_decidable : forall s, wfb s = true -> wf s.
 Proof. exact wfb_wf. Qed.
